@@ -15,8 +15,8 @@ var (
 
 // Set is the usual family of scripted transports of one node.
 type Set struct {
-	W                           *World
-	TCP, QUIC, WT, WS, Circuit  *Transport
+	W                          *World
+	TCP, QUIC, WT, WS, Circuit *Transport
 }
 
 // NewSet builds scripted stand-ins for the TCP, QUIC, WebTransport, WebSocket and
